@@ -25,6 +25,9 @@ func treeConfigs() []seqCfg {
 		// every tick is a poll of its own
 		{Name: "tree-polling-task-ticks-and-refreshes", Expiry: 0, Declared: []string{"d"}, Names: []string{"d"}, Extra: []string{"x"}, Initial: initial, NoDedup: true, Poller: true,
 			Events: []string{"put:d", "back:d", "poll", "tick", "restart"}},
+		// service failures that look like somebody's timeout while every caller's context is live
+		{Name: "tree-failures-that-look-like-timeouts", Expiry: 0, Declared: []string{"d"}, Names: []string{"d"}, Extra: []string{"x"}, Initial: initial, NoDedup: true, CtxLike: true,
+			Events: []string{"put:d", "failnext:d", "failnext:x", "poll", "restart"}},
 		// versions told apart by number only: "dup" makes a new active version with the bytes of the one before
 		{Name: "tree-one-secret-equal-bytes-versions", Expiry: 0, Declared: []string{"d"}, Names: []string{"d"}, Extra: []string{"x"}, Initial: initial, NoDedup: true,
 			Events: []string{"put:d", "dup:d", "back:d", "failnext:d", "poll", "restart"}},
@@ -163,6 +166,9 @@ func TestCheck(t *testing.T) {
 		}
 		if env.Shard == 0 {
 			runSeq(env, rep, "C19", 4, 7, false)
+			if env.Shard == 0 {
+				checkLookupsOffKeepsCache(rep)
+			}
 		}
 		runSched(t, env, rep, map[string]bool{"C19": true}, "sched-handle-taken-while-a-poll-is-in-flight", pick(lookupScenarios(), "S4 "), 2, 3)
 		runSched(t, env, rep, map[string]bool{"C19": true}, "sched-cache-writes-of-polls-and-lookups", pick(lookupScenarios(), "S2 ", "S9 ", "S12 "), 2, 3)
